@@ -100,8 +100,10 @@ def unflattenSplit (ch : Dict) : Out Dict :=
 
 /-! ### replace.py:37-110 `replace` -/
 
-/-- keyword names that collide with `replace`'s own parameters when a nested change dict is passed
-    on as `replace(field_value, **field_changes)` (replace.py:101) -/
+/-- keyword names that collide with `replace`'s own parameters.  Only the *top-level keyword form*
+    `replace(obj, **changes)` is affected (Python itself rejects / rebinds such a call); nested change
+    dicts are passed on positionally (replace.py:103, repaired in 4cae786), so nested fields may carry
+    these names. -/
 def reservedKey (k : Str) : Bool := k == "obj".toList || k == "changes_dict".toList
 
 def hasReserved (d : Dict) : Bool := d.any (fun kv => reservedKey kv.1)
@@ -138,8 +140,7 @@ def replaceFields : List Fld → Dict → Out (List Fld × Dict)
     | some x =>
       if !i then .error (.raise .valueError) else           -- :94
       match v, x with
-      | .inst c sub, .dict fc =>                            -- :99-101
-        if hasReserved fc then .error (.unmodelled "reserved-keyword".toList) else
+      | .inst c sub, .dict fc =>                            -- :99-103 `replace(field_value, field_changes)`
         match replaceKw (.inst c sub) fc with
         | .error e => .error e
         | .ok v' =>
@@ -152,7 +153,9 @@ def replaceFields : List Fld → Dict → Out (List Fld × Dict)
         | .error e => .error e
 end
 
-/-- replace.py:83-85: `changes_dict` (positional) and `**changes` -/
+/-- replace.py:83-85: `changes_dict` (positional) and `**changes`.  (The recursive call at :103 passes a
+    positional dict and no keywords: `changes_dict or changes` is then the dict itself, or `{}` when it is
+    empty — in both cases what `replaceKw` receives.) -/
 def replaceTop (obj : Val) (cd : Option Dict) (kw : Dict) : Out Val :=
   if hasReserved kw then .error (.unmodelled "reserved-keyword".toList) else
   match cd with
@@ -233,8 +236,8 @@ def sgMeta (tbl : SgTable) (cls fname : Str) : SgMeta :=
   | some e => e.2
   | Option.none => { hasDc := false, isOpt := false, sg := Option.none, fac := Option.none }
 
-/-- replace.py:153-173: the new member chosen by `value_of_selection` -/
-def pickMember (m : SgMeta) (vos : Val) : Out Val :=
+/-- replace.py:153-178: the new member chosen by `value_of_selection`; `cur` is the field's current value -/
+def pickMember (m : SgMeta) (cur : Val) (vos : Val) : Out Val :=
   match vos with
   | .type _ mk => .ok mk                                    -- :153 dataclass type → `value_of_selection()`
   | .inst c fs => .ok (.inst c fs)                          -- :155 instance → deepcopy
@@ -251,10 +254,17 @@ def pickMember (m : SgMeta) (vos : Val) : Out Val :=
       match vos with
       | .none =>
         if m.isOpt then .ok .none                           -- :166
-        else match m.fac with                               -- :168 (hasDc already checked at :140)
-          | some f => .ok f
-          | Option.none => .error (.raise .typeError)       -- `MISSING()` is not callable
-      | _ => .error (.raise .valueError)                    -- :171
+        else match cur with                                 -- :168-173 (hasDc already checked at :140)
+          | .inst c fs => .ok (.inst c fs)                  -- only subgroups below are replaced: keep the current instance
+          | _ => match m.fac with
+            | some f => .ok f
+            | Option.none => .error (.raise .typeError)     -- `MISSING()` is not callable
+      | _ => .error (.raise .valueError)                    -- :176
+
+/-- replace.py:145-151: `(value_of_selection, child_selections)` of one selection entry -/
+def selSplit : Val → Val × Dict
+  | .dict sd => ((dget sd keyword).getD .none, ddel sd keyword)
+  | x => (x, [])
 
 /-- the field loop of `replace_subgroups` (:128-180); `recur` is the recursive call at :176 -/
 def sgFields (tbl : SgTable) (recur : Val → Dict → Out Val) (cls : Str) : List Fld → Dict → Out (List Fld)
@@ -269,10 +279,8 @@ def sgFields (tbl : SgTable) (recur : Val → Dict → Out Val) (cls : Str) : Li
     | some s =>
       let m := sgMeta tbl cls n
       if !m.hasDc then .error (.raise .valueError) else     -- :140
-      let vc : Val × Dict := match s with                   -- :145-151
-        | .dict sd => ((dget sd keyword).getD .none, ddel sd keyword)
-        | x => (x, [])
-      match pickMember m vc.1 with
+      let vc : Val × Dict := selSplit s                     -- :145-151
+      match pickMember m v vc.1 with
       | .error e => .error e
       | .ok fv =>
         match (if vc.2.isEmpty then .ok fv else recur fv vc.2) with   -- :175-178
